@@ -199,17 +199,25 @@ Definition err1 (r : N) (p : npath) : ev := EErr (VE r [p]).
 
 Definition nullable_of (t : ty) : ty := match t with TNonNull t' => t' | _ => t end.
 
-(* the typed variable usages below a value (TypeInfo.enter_list_value / enter_object_field) *)
-Fixpoint val_uses (s : schema) (n : node) (p : npath) (it : option ty) (dflt oneof : bool)
-  {struct n} : list tusage :=
+(* the first earlier field of the same name: UniqueInputFieldNamesRule's known_names *)
+Fixpoint first_named (nm : str) (p : npath) (i : nat) (l : list node) : option npath :=
+  match l with
+  | [] => None
+  | f :: r => if str_eqb (arg_name f) nm then Some (p ++ [(O, i); (O, O)]%nat) else first_named nm p (S i) r
+  end.
+
+(* below a value: the typed variable usages (TypeInfo.enter_list_value / enter_object_field) and
+   the duplicate input object fields (UniqueInputFieldNamesRule, rule 12 of Valid/Rules.v) *)
+Fixpoint val_evs (s : schema) (n : node) (p : npath) (it : option ty) (dflt oneof : bool)
+  {struct n} : list ev :=
   match n with
-  | Nd KVariable (ANode nm :: _) => [TU (name_str nm) p it dflt oneof]
+  | Nd KVariable (ANode nm :: _) => [EUse (TU (name_str nm) p it dflt oneof)]
   | Nd KListValue (AList items :: _) =>
     let item := match it with
                 | Some t => match nullable_of t with TList t' => as_input s t' | _ => None end
                 | None => None
                 end in
-    concat (mapi (fun j m => val_uses s m (p ++ [(O, j)]) item false false) items)
+    concat (mapi (fun j m => val_evs s m (p ++ [(O, j)]) item false false) items)
   | Nd KObjectValue (AList flds :: _) =>
     let obj := match it with
                | Some t => match lookup_type s (named_of t) with
@@ -221,13 +229,17 @@ Fixpoint val_uses (s : schema) (n : node) (p : npath) (it : option ty) (dflt one
     concat (mapi (fun j f =>
       match f with
       | Nd KObjectField (_ :: ANode v :: _) =>
+        (match first_named (arg_name f) p O (firstn j flds) with
+         | Some p0 => [EErr (VE R_UINF [p0; p ++ [(O, j); (O, O)]%nat])]
+         | None => []
+         end) ++
         match obj with
         | Some (defs, one) =>
           match find_arg (arg_name f) defs with
-          | Some ad => val_uses s v (p ++ [(O, j); (1, O)]%nat) (as_input s (a_type ad)) (has_default ad) one
-          | None => val_uses s v (p ++ [(O, j); (1, O)]%nat) None false one
+          | Some ad => val_evs s v (p ++ [(O, j); (1, O)]%nat) (as_input s (a_type ad)) (has_default ad) one
+          | None => val_evs s v (p ++ [(O, j); (1, O)]%nat) None false one
           end
-        | None => val_uses s v (p ++ [(O, j); (1, O)]%nat) None false false
+        | None => val_evs s v (p ++ [(O, j); (1, O)]%nat) None false false
         end
       | _ => []
       end) flds)
@@ -251,7 +263,7 @@ Definition arg_evs (s : schema) (p : npath) (i : nat) (args : list node)
       let it := match ad with Some d => as_input s (a_type d) | None => None end in
       (match ad with None => if report_unknown then [err1 R_KARG ap] else [] | Some _ => [] end)
       ++ (match it with Some t => map (err1 R_VALUES) (vlit s v vp t) | None => [] end)
-      ++ map EUse (val_uses s v vp it (match ad with Some d => has_default d | None => false end) false)
+      ++ val_evs s v vp it (match ad with Some d => has_default d | None => false end) false
     | _ => []
     end) args).
 
@@ -318,7 +330,11 @@ Fixpoint sel_evs (vs : vschema) (fr : list (str * node)) (p : npath) (ss : node)
             | Some t =>
               if is_leaf s (named_of t)
               then match sset with ANode _ => [err1 R_LEAFS (sp ++ [(4, O)]%nat)] | _ => [] end
-              else match sset with ANode _ => [] | _ => [err1 R_LEAFS sp] end
+              else match sset with
+                   | ANode (Nd KSelectionSet (AList [] :: _)) => [err1 R_LEAFS sp]   (* no field selected *)
+                   | ANode _ => []
+                   | _ => [err1 R_LEAFS sp]
+                   end
             | None => []
             end)
         ++ arg_evs s sp 3 args (option_map f_args fdef) (match fdef with Some _ => true | None => false end)
@@ -364,6 +380,10 @@ Definition vardef_evs (vs : vschema) (p : npath) (vds : list node) : list ev :=
             end
           | _, _ => []
           end)
+      ++ (match dv with
+          | ANode v => filter is_err (val_evs (vs_s vs) v (vp ++ [(3, O)]%nat) None false false)
+          | _ => []
+          end)
       ++ filter is_err (dir_evs vs vp 4 (attr_list ds) None)
     | _ => []
     end) vds).
@@ -376,19 +396,32 @@ Definition op_root (s : schema) (o : attr) : option str :=
            end in
   match r with Some n => if is_object s n then Some n else None | None => None end.
 
+(* VariableUsageVisitor records `Undefined` as the location default of EVERY usage inside a fragment
+   definition (validation_context.py: "Fragment variables have a variable default but no location
+   default"), also for operation variables: the specification's hasLocationDefaultValue is ignored
+   there.  [spec] = true gives the specification's reading instead (used to count the difference). *)
+Definition no_loc_default (e : ev) : ev :=
+  match e with
+  | EUse u => EUse (TU (tu_name u) (tu_path u) (tu_type u) false (tu_oneof u))
+  | _ => e
+  end.
+
 (* the events of one definition at p *)
-Definition def_evs (vs : vschema) (fr : list (str * node)) (p : npath) (n : node) : list ev :=
+Definition def_evs_gen (spec : bool) (vs : vschema) (fr : list (str * node)) (p : npath) (n : node) : list ev :=
   match n with
   | Nd KOperationDefinition (ANode ss :: _ :: _ :: vds :: ds :: o :: _) =>
     vardef_evs vs p (attr_list vds)
     ++ dir_evs vs p 4 (attr_list ds) None
     ++ sel_evs vs fr (p ++ [(O, O)]) ss (op_root (vs_s vs) o) None
   | Nd KFragmentDefinition (ANode ss :: _ :: _ :: _ :: ds :: ANode tc :: _) =>
-    cond_evs vs (p ++ [(5, O)]%nat) tc
-    ++ dir_evs vs p 4 (attr_list ds) None
-    ++ sel_evs vs fr (p ++ [(O, O)]) ss (cond_type vs tc) None
+    map (if spec then (fun e => e) else no_loc_default)
+      (cond_evs vs (p ++ [(5, O)]%nat) tc
+       ++ dir_evs vs p 4 (attr_list ds) None
+       ++ sel_evs vs fr (p ++ [(O, O)]) ss (cond_type vs tc) None)
   | _ => []
   end.
+
+Definition def_evs := def_evs_gen false.
 
 Definition doc_defs (d : node) : list node :=
   match d with Nd KDocument (AList l :: _) => l | _ => [] end.
@@ -401,9 +434,10 @@ Definition frag_conds (d : node) : list (str * node) :=
     | _ => []
     end) (doc_defs d)).
 
-Definition all_def_evs (vs : vschema) (d : node) : list (npath * list ev) :=
+Definition all_def_evs_gen (spec : bool) (vs : vschema) (d : node) : list (npath * list ev) :=
   let fr := frag_conds d in
-  mapi (fun j n => ([(O, j)], def_evs vs fr [(O, j)] n)) (doc_defs d).
+  mapi (fun j n => ([(O, j)], def_evs_gen spec vs fr [(O, j)] n)) (doc_defs d).
+Definition all_def_evs := all_def_evs_gen false.
 
 Definition errs_of (evs : list ev) : list verr :=
   flat_map (fun e => match e with EErr v => [v] | EUse _ => [] end) evs.
@@ -490,14 +524,32 @@ Definition varpos_op (vs : vschema) (d : node) (tbl : list (npath * list ev)) (f
   | None => None
   end.
 
-Definition rule_variables_in_allowed_position (vs : vschema) (d : node) : option (list verr) :=
+(* NoUndefinedVariablesRule (rule 9 of Valid/Rules.v) over the same usages *)
+Definition undef_op (vs : vschema) (d : node) (tbl : list (npath * list ev)) (fs : list fraginfo)
+           (o : opinfo) : option (list verr) :=
+  match refs fs (o_spreads o) with
+  | Some rf =>
+    let us := uses_of (evs_at tbl (o_path o)) ++ flat_map (fun f => uses_of (evs_at tbl (f_path f))) rf in
+    Some (flat_map (fun u => match find_vd (tu_name u) (op_vdinfos d (o_path o)) with
+                             | Some _ => []
+                             | None => [VE R_UNDEFV [tu_path u; o_path o]]
+                             end) us)
+  | None => None
+  end.
+
+Definition rule_undefined13 (vs : vschema) (d : node) : option (list verr) :=
   let xs := xdefs d in
-  let tbl := all_def_evs vs d in
+  opt_concat (map (undef_op vs d (all_def_evs vs d) (frags_of xs)) (ops_of xs)).
+
+Definition rule_varpos_gen (spec : bool) (vs : vschema) (d : node) : option (list verr) :=
+  let xs := xdefs d in
+  let tbl := all_def_evs_gen spec vs d in
   opt_concat (map (varpos_op vs d tbl (frags_of xs)) (ops_of xs)).
+Definition rule_variables_in_allowed_position := rule_varpos_gen false.
 
 (* all ten rules *)
 Definition rules13 (vs : vschema) (d : node) : option (list verr) :=
-  match rule_variables_in_allowed_position vs d with
-  | Some es => Some (local_errs vs d ++ es)
-  | None => None
+  match rule_variables_in_allowed_position vs d, rule_undefined13 vs d with
+  | Some es, Some us => Some (local_errs vs d ++ es ++ us)
+  | _, _ => None
   end.
